@@ -623,6 +623,36 @@ def _interp_block(repo, cls, fn, stmts, ctx, res, gens):
         _interp_stmt(repo, cls, fn, st, ctx, res, gens)
 
 
+def _is_empty_list_expr(v):
+    return (isinstance(v, ast.List) and not v.elts) or (isinstance(v, ast.Call) and isinstance(v.func, ast.Name) and v.func.id == "list" and not v.args and not v.keywords)
+
+
+def _feeds_sink(fn, name):
+    """the local list `name` is poured into a class sink somewhere in the hook (`sink.extend(name)` / `sink += name`)"""
+    for n0 in ast.walk(fn):
+        if isinstance(n0, ast.Call) and call_name(n0) == "extend" and dotted(n0.func.value) in ("self.list_of_class_constraints", "self.list_of_class_psd") \
+                and n0.args and isinstance(n0.args[0], ast.Name) and n0.args[0].id == name:
+            return True
+        if isinstance(n0, ast.AugAssign) and dotted(n0.target) in ("self.list_of_class_constraints", "self.list_of_class_psd") \
+                and isinstance(n0.value, ast.Name) and n0.value.id == name:
+            return True
+    return False
+
+
+def _pour(cls, ctx, res, acc, sink, where):
+    """the collected emissions reach the sink: unconditionally and once (outside every loop), into the sink of their kind"""
+    if ctx["loops"] or ctx["guards"]:
+        raise AnalysisError("%s: a local list of constraints is poured into %s under a loop / condition (%s)" % (cls.name, sink, where))
+    if acc.get("poured"):
+        raise AnalysisError("%s: a local list of constraints is poured twice (%s)" % (cls.name, where))
+    want = "self.list_of_class_psd" if acc["kind"] == "lmi" else "self.list_of_class_constraints"
+    if acc["kind"] is not None and sink != want:
+        raise AnalysisError("%s: %s objects poured into %s (%s)" % (cls.name, acc["kind"], sink, where))
+    acc["poured"] = True
+    res.emissions.extend(acc["pending"].emissions)
+    res.events.extend(acc["pending"].events)
+
+
 def _fork_ctx(ctx):
     c = dict(ctx)
     for key in ("env", "matrices", "psd", "attr_sorts", "alias"):
@@ -878,6 +908,10 @@ def _interp_stmt(repo, cls, fn, st, ctx, res, gens):
             if isinstance(g0.iter, ast.Call) and call_name(g0.iter) == "range" and len(g0.iter.args) == 1 and _is_block_count(g0.iter.args[0], ctx):
                 ctx["env"][tgt.id] = Opaque("blocklist")
                 return
+        if isinstance(tgt, ast.Name) and not ctx["loops"] and _is_empty_list_expr(st.value) and _feeds_sink(fn, tgt.id):
+            # a local list that collects constraints / LMIs and is poured into a sink later: appends to it are emissions kept aside
+            ctx.setdefault("locallists", {})[tgt.id] = {"kind": None, "pending": HookResult()}
+            return
         if isinstance(tgt, ast.Name) and _aliasable(st.value) and not isinstance(st.value, ast.Constant):
             # a local that only re-reads something (a list attribute, a same-sample test): kept as an alias, substituted at its uses
             sub = asub(st.value, ctx)
@@ -921,6 +955,18 @@ def _interp_stmt(repo, cls, fn, st, ctx, res, gens):
         if name == "append" and recv == "self.list_of_class_constraints":
             _direct_scalar(cls, fn, st, call, ctx, res, where)
             return
+        ll = ctx.get("locallists", {})
+        if name == "append" and recv in ll and len(call.args) == 1:
+            pend = ll[recv]["pending"]
+            a0 = call.args[0]
+            is_lmi = (isinstance(a0, ast.Name) and a0.id in ctx["psd"]) or (isinstance(a0, ast.Call) and call_name(a0) == "PSDMatrix")
+            (_direct_lmi if is_lmi else _direct_scalar)(cls, fn, st, call, ctx, pend, where)
+            ll[recv]["kind"] = "lmi" if is_lmi else "scalar"
+            return
+        if name == "extend" and recv in ("self.list_of_class_constraints", "self.list_of_class_psd") and len(call.args) == 1 \
+                and isinstance(call.args[0], ast.Name) and call.args[0].id in ll:
+            _pour(cls, ctx, res, ll[call.args[0].id], recv, where)
+            return
         if name == "append" and recv == "self.list_of_class_psd":
             _direct_lmi(cls, fn, st, call, ctx, res, where)
             return
@@ -943,6 +989,10 @@ def _interp_stmt(repo, cls, fn, st, ctx, res, gens):
             raise AnalysisError("%s: statement `%s` touches a constraint sink in an unrecognised way (%s)"
                                 % (cls.name, norm_stmt(st)[:80], where))
         res.skipped.append(norm_stmt(st)[:100])
+        return
+    if isinstance(st, ast.AugAssign) and isinstance(st.op, ast.Add) and dotted(st.target) in ("self.list_of_class_constraints", "self.list_of_class_psd") \
+            and isinstance(st.value, ast.Name) and st.value.id in ctx.get("locallists", {}):
+        _pour(cls, ctx, res, ctx["locallists"][st.value.id], dotted(st.target), where)
         return
     if _mentions_sink(st):
         raise AnalysisError("%s: statement `%s` touches a constraint sink in an unrecognised way (%s)"
